@@ -47,6 +47,24 @@ R = {
  "C20-1": ("(first batch)", ["C20"], "caught", "", ["contains-iff-inserted", "prefix-query/result-count"]),
  "C20-2": ("(first batch)", ["C20"], "caught", "", ["prefix-query/longest-common-prefix-length", "go-panic:slice bounds out of range@autoCompleteCallback"]),
 
+ # ---- fifth batch: holdout (run once against the checks as they stood; "first run" is that result) ----
+ "C02-5": ("\\x escape decoded as a rune (same idea as C03-3, found independently)", ["C02"], "caught", "", ["roundtrip/tree-changed#s = \"@\"|normal (4 labels)"]),
+ "C02-6": ("number before a dot parenthesised for integer literals only ((08).a, ints above MaxInt64 are float literals)", ["C02"], "missed", "number-before-dot skeletons with float-by-fallback spellings", ["roundtrip/printed-form-does-not-parse#f((99999999999999999999).k, 1)|normal"]),
+ "C04-5": ("cache key keeps only the first four arguments", ["C04"], "missed", "sessions varying the fifth / sixth argument and variadic extras", ["memoization/printed-output", "memoization/result-value"]),
+ "C04-6": ("del marks the call uncacheable only when it removed something", ["C04"], "missed", "sessions deleting a name that is unbound at the first call", ["memoization/result-value"]),
+ "C05-5": ("an outer variable assigned from a bare register keeps the register", ["C05"], "caught", "", ["registers#got = -1 | func f(){for i = 5 {if i == k1 {got = i}}} | f() | got/result-value"]),
+ "C05-6": ("Equals only unwraps a register on its left operand", ["C05"], "missed", "sessions comparing two registers / a literal with a register on the right", ["registers#func f(n, m){[n == m, n != m, n == 3, 3 == n, m == n + 0]} | f(a, b) | f(3, 3)/result-value"]),
+ "C06-5": ("map + shares the left operand's storage through slices.Grow", ["C06"], "missed", "skeletons added (left operand with spare capacity, partial views): the executor finds the aliasing but its counterexample does not reproduce natively (ENGINE-MISMATCH: capacity of the grown slice differs) - still not caught", []),
+ "C06-6": ("CopyMap decides by size instead of representation", ["C06"], "missed", "maps in the large representation holding few entries (shrunk by del, literal with repeated keys)", ["alias/large-container/other-binding-unchanged", "alias/small-container/other-binding-unchanged"]),
+ "C07-5": ("a counted loop ending in an error returns without releasing its register", ["C07"], "missed", "loops inside loops whose error is swallowed by catch / log", ["go-panic:Releasing non last register i@(*object.Environment).ReleaseRegister"]),
+ "C07-6": ("lambda printing indexes the comment-filtered statement list", ["C07"], "missed", "function bodies that are only comments", ["go-panic:index out of range@(object.Function).lambdaPrint"]),
+ "C10-5": ("error results are memoized (a deadline error is replayed later)", ["C10"], "missed", "not caught: deadlines are outside the model (context.WithTimeout is stubbed); the second symptom is in the text of error stacks, which the check does not compare", []),
+ "C10-6": ("macro nesting counter leaks on the nesting-limit error", ["C10"], "not run: the patch no longer applies after repair cce0688 (which fixed the same counter for panics)", "", []),
+ "C15-5": ("a bare return at the end of a line-mode input asks for a continuation", ["C15"], "missed", "complete programs must be accepted as they are in line mode; programs ending in return / break / continue", ["modes/complete-program-not-accepted-in-line-mode"]),
+ "C15-6": ("stale-cache check once per top-level evaluation instead of per call", ["C15"], "missed", "scripts redefining a function between two memoized calls", ["incremental/printed-output-differs"]),
+ "C19-5": (":= / parameter check walks the call stack instead of the lexical chain", ["C19"], "missed", "VerifConstProgram: constants bound inside functions and captured by closures called after the function returned", ["constant/local-value-unchanged"]),
+ "C19-6": ("first binding inside a function stores the register, not its value", ["C19"], "missed", "VerifConstProgram: constants bound from a parameter that changes afterwards (also a C05 session)", ["constant/local-value-unchanged"]),
+
  # ---- third and fourth batches (agents asked to avoid the obvious and to report defects of the unchanged tree) ----
  "C01-4": ("the function's own name is looked up before its parameters and locals", ["C01"], "missed", "W programs with a local / parameter named like the function", ["reference/error-outcome", "reference/printed-output"]),
  "C01-5": ("the value of a counted loop is copied out of the register once, after the loop", ["C01"], "missed", "W programs observing the value of a loop whose later iterations continue / break", ["reference/printed-output"]),
